@@ -5,7 +5,7 @@ either g == f or the triple (ADT::variant, f, g) is in the reviewed alias table 
 each read against the code: e.g. UpdateFulfillHTLC.payment_preimage <- Fulfill.preimage, CommonOpenChannelFields.dust_limit_satoshis <-
 holder_dust_limit_satoshis).  A value taken from a wrong-but-type-compatible field (amount <- skimmed amount, base fee <- proportional fee,
 previous <- current) produces a triple outside the table.  Locals and call results are not judged (no names of locals are used)."""
-import json, os
+import json, os, collections
 from engine import *
 
 _ALIASES = None
@@ -198,3 +198,108 @@ SCOPE = {
 
 def for_property(F, pid, rule_id):
 	return rule(F, rule_id, SCOPE[pid])
+
+# ----------------------------------------------------------------------------- swapped arguments
+# A call  f(.., x.b, ..)  whose argument for parameter `a` is read from a field / variable that carries the name of ANOTHER parameter
+# of f (and not of its own) is the signature of two type-compatible arguments handed over in the wrong order
+# (holder <-> counterparty, incoming <-> outgoing, previous <-> current).  Today's tree has a handful of such sites which are
+# legitimate (`self` handed on as a handler, `msg` handed on as `full_msg`); they are the reviewed exception list.
+_SWAP_OK = {
+	('generate_claim', 'construct_malleable_package_with_external_funding', 'onchain_handler', 'self'),
+	('generate_claim', 'maybe_finalize_malleable_package', 'onchain_handler', 'self'),
+	('generate_claim', 'maybe_finalize_untractable_package', 'onchain_handler', 'self'),
+	('generate_claim', 'get_maybe_signed_commitment_tx', 'onchain_tx_handler', 'self'),
+	('send_payment_for_verified_bolt12_invoice', 'send_payment_for_bolt12_invoice', 'node_id_lookup', 'self'),
+	('pay_for_bolt12_invoice', 'pay_for_bolt12_invoice', 'node_id_lookup', 'self'),
+	('send_payment_for_static_invoice_no_persist', 'send_payment_for_static_invoice', 'node_id_lookup', 'self'),
+	('handle_claimable_htlc', 'check_incoming_mpp_part', 'payment_onion_fields', 'onion_fields'),
+	('handle_trampoline_htlc', 'check_incoming_mpp_part', 'payment_onion_fields', 'onion_fields'),
+	('do_accept_inbound_channel', 'apply', 'self', 'config'),
+	('update_node_from_announcement', 'update_node_from_announcement_intern', 'full_msg', 'msg'),
+	('update_channel_from_announcement', 'update_channel_from_unsigned_announcement_intern', 'full_msg', 'msg'),
+	('update_channel', 'update_channel_internal', 'full_msg', 'msg'),
+	('verify_channel_update', 'update_channel_internal', 'full_msg', 'msg'),
+	('penalty_msat', 'success_probability', 'max_liquidity_msat', 'capacity_msat'),
+}
+_SWAPS = {}
+
+def swapped_args_census(F, prefix='lightning::'):
+	if F.dir in _SWAPS:
+		return _SWAPS[F.dir]
+	pn = {}
+	def params(name):
+		if name not in pn:
+			try:
+				cu = F.func(name)
+				pn[name] = [cu.vars.get(i) for i in range(1, cu.argc + 1)]
+			except AnchorMissing:
+				pn[name] = None
+		return pn[name]
+	hits = []
+	judged = collections.Counter()
+	for n, r in F.fns.items():
+		if not n.startswith(prefix) or 'ser_macros' in r['file']:
+			continue
+		try:
+			fu = F.func(n)
+		except AnchorMissing:
+			continue
+		ex = None
+		for b, ci in fu.calls():
+			f = norm(ci.get('f') or '')
+			if not f.startswith(prefix) or len(ci['args']) < 2:
+				continue
+			ps = params(f)
+			if not ps or len(ps) != len(ci['args']):
+				continue
+			judged[r['file']] += 1
+			if ex is None:
+				ex = Expr(fu, max_depth=8)
+			for i, a in enumerate(ci['args']):
+				e = strip(ex.of_operand(a))
+				g = e[2] if (e[0] == 'field' and not str(e[2]).isdigit()) or (e[0] == 'local' and e[2]) else None
+				if not g or g == ps[i] or g not in ps:
+					continue
+				caller = root_fn(n).rsplit('::', 1)[-1]
+				hits.append({'file': r['file'], 'caller': caller, 'callee': f.rsplit('::', 1)[-1], 'param': ps[i], 'source': g, 'fn': n, 'line': fu.line_of(b)})
+	_SWAPS[F.dir] = (hits, judged)
+	return _SWAPS[F.dir]
+
+def swapped_args(F, rule_id, file_res):
+	"""file_res: regexes of source files whose calls are judged under this property"""
+	import re
+	hits, judged = swapped_args_census(F)
+	n = sum(c for f, c in judged.items() if any(re.search(x, f) for x in file_res))
+	if n == 0:
+		return [Result(rule_id, False, 'anchor:swapped-args', 'no call site was judged in %s' % (file_res,))]
+	out = []
+	for h in hits:
+		if not any(re.search(x, h['file']) for x in file_res):
+			continue
+		if (h['caller'], h['callee'], h['param'], h['source']) in _SWAP_OK:
+			continue
+		out.append(Result(rule_id, False, 'swapped:%s->%s(%s<-%s)' % (h['caller'], h['callee'], h['param'], h['source']),
+			'%s calls %s with parameter `%s` read from `%s`, which is the name of another parameter of %s: two type-compatible arguments in the wrong order?' % (h['caller'], h['callee'], h['param'], h['source'], h['callee']),
+			1, where=F.where(h['fn'], h['line'])))
+	if not out:
+		out.append(Result(rule_id, True, 'ok:swapped-args', '%d in-crate call sites with >= 2 arguments judged in %s: no argument carries the name of a different parameter of its callee (reviewed exceptions aside)' % (n, '|'.join(file_res)), n))
+	return out
+
+SWAP_SCOPE = {
+	'C01': [r'ln/channel\.rs$', r'ln/chan_utils\.rs$', r'sign/tx_builder\.rs$', r'ln/interactivetxs\.rs$', r'ln/funding\.rs$'],
+	'C02': [r'ln/channelmanager\.rs$'],
+	'C03': [r'ln/outbound_payment\.rs$'],
+	'C04': [r'ln/inbound_payment\.rs$', r'ln/onion_payment\.rs$'],
+	'C05': [r'sign/mod\.rs$', r'ln/chan_utils\.rs$'],
+	'C06': [r'chain/package\.rs$', r'chain/onchaintx\.rs$'],
+	'C07': [r'chain/channelmonitor\.rs$', r'chain/chainmonitor\.rs$', r'events/bump_transaction'],
+	'C14': [r'ln/onion_utils\.rs$', r'blinded_path/'],
+	'C15': [r'ln/peer_handler\.rs$', r'ln/peer_channel_encryptor\.rs$'],
+	'C16': [r'routing/router\.rs$', r'routing/scoring\.rs$'],
+	'C17': [r'routing/gossip\.rs$', r'routing/utxo\.rs$'],
+	'C18': [r'offers/'],
+	'C19': [r'util/persist\.rs$'],
+}
+
+def swaps_for_property(F, pid, rule_id):
+	return swapped_args(F, rule_id, SWAP_SCOPE[pid])
